@@ -54,7 +54,8 @@ REASONS = [
     (r"parser::ParserState::<'a>::get_line_offset \| Overflow:Sub \| arg1\.token_cursor\.tokens\[\]\.line Sub 1 \(u32\) \| #0", "line numbers start at 1 in tokenize_core", None),
     (r"parser::ParserState::<'a>::get_token_text \| Slice:str \| arg1\.filedata\[\]\[arg2\.startpos\.\.arg2\.endpos\] \| #0", "token positions are produced by tokenize_core on the same text: startpos <= endpos <= len, every token starts and ends next to an ASCII byte", None),
     (r"parser::ParserState::<'a>::handle_unknown_taggedstruct_tag \| BoundsCheck \| len=len\(arg1\.token_cursor\.tokens\) index=parser::ParserState::get_tokenpos\(\.\.\) \| #0",
-     "the get_token()? + undo_get_token() pair directly before proves that a token exists at the cursor position", {"dominating_calls": ["parser::ParserState::<'a>::get_token"]}),
+     "the get_token()? + undo_get_token() pair directly before proves that a token exists at the cursor position; the index is read after the undo",
+     {"dominating_calls": ["parser::ParserState::<'a>::get_token"], "sequence": ["parser::ParserState::<'a>::get_token", "parser::ParserState::<'a>::undo_get_token", "parser::ParserState::<'a>::get_tokenpos"]}),
     (r"parser::ParserState::<'a>::handle_unknown_taggedstruct_tag \| Overflow:(Add|Sub) \| local:i32 (Add|Sub) 1 \(i32\) \| #0", "balance changes by one per token: stated assumption < 2^31 tokens", None),
     (r"parser::TokenIter::<'a>::back \| Overflow:Sub \| arg1\.pos Sub 1 \(usize\) \| #0", "back() is only called to undo a next()/get_token() that succeeded (undo_get_token, stop-list rewind)", None),
     # ---------------------------------------------------------------- tokenizer.rs
